@@ -32,6 +32,7 @@ PROPERTY = "C17"
 FUNCTIONS = ["ConsoleApplication.run", "HelpResolver.resolve/create_resolved_command", "Config.enable/disable_lenient_args_parsing", "DefaultApplicationConfig.create_io", "TableStyle.borderless/compact/ascii/solid",
              "BorderStyle.none/ascii/solid", "Table.render", "ApplicationHelp/CommandHelp.render", "ExceptionTrace.render (_FRAME_SNIPPET_CACHE)"]
 PART = {}
+EXTRA_BOUNDS = 'also: lines for a factory handler with state, a multi-valued option, a command with a pinned parser object, quoted vs. blank-joined tokens, a handler that adds styles; same_list: one argv list object used for two runs.'
 LINES = ["greet bob", "greet", "num 5", "num abc", "num 1 2", "help", "help greet", "greet --help", "help num abc", "--version", "greet --zz", "nope",
          "greet bob --ansi", "help greet --ansi", "loose 1 2 3", "help loose", "-q greet bob", "num 7 -vvv",
          "remote -h", "help remote", "remote add o extra", "fail -vvv --ansi", "fail -vvv --no-ansi", "count", "greet --tag a -tb", "greet al --tag c",
